@@ -123,6 +123,24 @@ def install(E):
     S['trait:std::cmp::PartialEq::eq'] = eq
     S['trait:std::cmp::PartialEq::ne'] = ne
 
+    def mk_minmax(is_max):
+        def mm(I, args, e, c):
+            a, b = args[0], args[1]
+            if not (isinstance(a, VInt) and isinstance(b, VInt)): raise Undecidable('min/max on %r' % (a,), e['loc'])
+            d = b.lin - a.lin                  # b - a
+            if d.is_const():
+                a_le_b = d.k >= 0
+            else:
+                a_le_b = I.truth(VBool(('le0', a.lin - b.lin)), e['loc'])     # case split: a <= b ?
+            return (b if a_le_b else a) if is_max else (a if a_le_b else b)
+        return mm
+    S['trait:std::cmp::Ord::max'] = mk_minmax(True)
+    S['std::cmp::Ord::max'] = mk_minmax(True)
+    S['trait:std::cmp::Ord::min'] = mk_minmax(False)
+    S['std::cmp::Ord::min'] = mk_minmax(False)
+    S['std::cmp::max'] = mk_minmax(True)
+    S['std::cmp::min'] = mk_minmax(False)
+
     def ptr_eq(I, args, e, c):
         """Rc::ptr_eq: pointer identity implies structural equality, never the converse - a structurally equal diagram may
         have been allocated elsewhere (another environment, From, Rc::new), so both outcomes are explored when the operands are equal"""
